@@ -18,6 +18,7 @@ CLAIM = (
     "(6) the inference result is read before transpiling in all six targets."
     " SHADOW: a loop variable of a generator is rejected when any enclosing scope defines the name (lookup through Environment.find and its parents); "
     "SKIPS: the inferrer and the checkers of the contracts have no fewer unconditional descents into sub-expressions and no more skips than the reference."
+    " CANON-INJ: the canonical text under which non-nullness is tracked renders a constant as its Python literal (repr / !r / %r / json.dumps), so that it cannot read like a name or like a constant of another type."
 )
 NOTE = (
     "Trusted base: the requirement table (Python semantics: which operands are dereferenced), one line of reason per row in this file. "
@@ -51,6 +52,46 @@ TABLE = [
 ]
 
 
+def _check_canonical_constants(ctx) -> None:
+    """Non-nullness is tracked per canonical *text* of an expression.  Two different expressions with one text share their
+    narrowing; for names, members and calls the text is their syntax, and a constant must be rendered so that it cannot collide
+    with them or with a constant of another type: its Python literal (repr / !r / %r / json.dumps), not its str()."""
+    can = ctx.p.cls(f"{TI}:_Canonicalizer")
+    m = can.methods.get("transform_constant")
+    ctx.require_anchor(m is not None, "_Canonicalizer.transform_constant exists")
+    param = m.node.args.args[1].arg
+
+    def value_of(e: ast.AST) -> bool:
+        return isinstance(e, ast.Attribute) and isinstance(e.value, ast.Name) and e.value.id == param and e.attr == "value"
+
+    def injective(e: ast.AST) -> bool:
+        if isinstance(e, ast.Call) and dotted_of(e.func) in ("repr", "json.dumps") and len(e.args) == 1 and value_of(e.args[0]):
+            return True
+        if isinstance(e, ast.JoinedStr):
+            fvs = [v for v in e.values if isinstance(v, ast.FormattedValue)]
+            return len(fvs) == 1 and value_of(fvs[0].value) and fvs[0].conversion == ord("r")
+        if isinstance(e, ast.BinOp) and isinstance(e.op, ast.Mod) and isinstance(e.left, ast.Constant) and e.left.value == "%r":
+            return value_of(e.right)
+        return False
+
+    # the expression that reaches representation_map[node] / the return value
+    defs = {}
+    for st in walk_function_body(m.node):
+        if isinstance(st, ast.Assign) and len(st.targets) == 1 and isinstance(st.targets[0], ast.Name):
+            defs[st.targets[0].id] = st.value
+    rets = [st for st in walk_function_body(m.node) if isinstance(st, ast.Return) and st.value is not None]
+    ctx.require_anchor(len(rets) >= 1, "transform_constant returns the canonical text")
+    for r in rets:
+        e = r.value
+        if isinstance(e, ast.Name) and e.id in defs:
+            e = defs[e.id]
+        what = "transform_constant: a constant is rendered as its literal"
+        if injective(e):
+            ctx.ok("CANON-INJ", m, r, what=what)
+        else:
+            ctx.fail("CANON-INJ", m, r, f"the canonical text of a constant is `{short(e)}`, not the literal of its value: the string constant \"self.x\" and the expression self.x (or the constants 1 and \"1\") get the same text and share their non-null narrowing, so an Optional operand passes the type check un-narrowed", construct=what)
+
+
 def run(ctx) -> None:
     p = ctx.p
     ctx.rule("NONNULL", "operands that Python dereferences are rejected when Optional (error appended, no non-None return reachable)", floor=18)
@@ -62,6 +103,8 @@ def run(ctx) -> None:
     ctx.rule("ERR1", "inference errors read before transpiling (six targets)", floor=10)
     ctx.rule("ERR1v", "inference result unused while error untested", floor=10)
     ctx.rule("ERR2", "no inference result dropped", floor=0)
+    ctx.rule("CANON-INJ", "the canonical text (the key of the non-null bookkeeping) renders a constant so that it cannot read like a name or another constant", floor=1)
+    _check_canonical_constants(ctx)
     inf = p.cls(f"{TI}:_Inferrer")
     for method, operand, reason in TABLE:
         m = inf.methods.get(method)
